@@ -78,10 +78,12 @@ class Sim:
         self.stats['probes'][name] = self.stats['probes'].get(name, 0) + n
 
     # -- helpers -----------------------------------------------------------------------------
-    def materialise(self, res, route='xml', quote='"', tag='', style=None):
+    def materialise(self, res, route='xml', quote='"', tag='', style=None, siblings=None):
         data = xmlout.resource_xml(self.u, res, quote=quote, style=style)
         d = self.W.workdir('in-%s-%d%s' % (res['name'], self.step, tag))
-        return xmlout.package(route if route != 'mem' else 'xml', d, res['name'], data), data
+        sib = [(n, xmlout.resource_xml(self.u, self.res[n])) for n in (siblings or [])]
+        return xmlout.package(route if route != 'mem' else 'xml', d, res['name'], data,
+                              siblings=sib or None), data
 
     def materialise_ili(self, f, route='xml'):
         data = xmlout.ili_tsv(f)
@@ -159,7 +161,8 @@ class Sim:
     def op_add(self, op):
         res = self.res[op['res']]
         route = op.get('route', 'xml')
-        path, data = self.materialise(res, route, op.get('quote', '"'), style=op.get('style'))
+        path, data = self.materialise(res, route, op.get('quote', '"'), style=op.get('style'),
+                                      siblings=op.get('siblings'))
         f6 = op.get('fault') if (op.get('fault') or {}).get('kind') == 'F6' else None
         if f6:
             # torn / short write of the file being added: the tail is missing
@@ -204,6 +207,11 @@ class Sim:
                                  {'exc': repr(exc), 'op': op,
                                   'tb': getattr(exc, 'tb_text', None)})
         self.m.add_resource(res['lexicons'])
+        for n in op.get('siblings', []) or []:
+            # packages of a collection are mutually independent by construction, so the
+            # directory order cannot change what is installed
+            self.m.add_resource(self.res[n]['lexicons'])
+            self.probe('collection-package')
         if todo:
             self.probe('add-installs')
         else:
@@ -285,6 +293,20 @@ class Sim:
                     self.m = m2
                     self.probe('faulted-remove-prefix-state')
                     return
+        if op['op'] == 'add' and op.get('siblings'):
+            # a collection is added package by package (one transaction each): any set of
+            # completely added packages is an accepted state
+            import itertools
+            names = [op['res']] + list(op['siblings'])
+            for k in range(1, len(names) + 1):
+                for sub in itertools.combinations(names, k):
+                    mm = self.m.copy()
+                    for n in sub:
+                        mm.add_resource(self.res[n]['lexicons'])
+                    if sorted(mm.installed) == got and (k < len(names) or True):
+                        self.m = mm
+                        self.probe('faulted-collection-prefix-state')
+                        return
         m3 = self.m.copy()
         if op['op'] == 'add':
             m3.add_resource(self.res[op['res']]['lexicons'])
